@@ -882,6 +882,17 @@ def run_shard(item):
                             continue
                         check_eq_pair(rec, a, b, ha, hb_)
                         n += 1
+        # values that a *derived* identity confuses: Python hashes ints modulo 2^61 - 1, so v and v + k(2^61 - 1) have equal
+        # hashes; 8-octet fields holding them are different fields and must compare unequal (both ways, through every constructor)
+        M = (1 << 61) - 1
+        for v in (0, 1, 2, 0x55, M - 1):
+            for k in (1, 2, 7):
+                if v + k * M < (1 << 64):
+                    for ha in hows:
+                        for hb_ in hows:
+                            check_eq_pair(rec, (8, v), (8, v + k * M), ha, hb_)
+                            check_eq_pair(rec, (8, v + k * M), (8, v), hb_, ha)
+                            n += 2
         check_hash_dependence(rec)
         rec.count("eq_pairs", n)
         rec.count("eq_fields", len(fields))
